@@ -530,6 +530,14 @@ def run(chk):
             if rng.random() < 0.2:
                 s["input"] = rng.choice(INPUTS[s["in"]])
             h.append(s)
+        # an Encoder instance keeps the preferences it was built with (constructor arguments): histories either
+        # re-use encoders under the default preferences, or configure preferences and build an encoder per evaluation
+        if rng.random() < 0.5:
+            for s in h:
+                s["pf"] = 0
+        else:
+            for s in h:
+                s["reuse_enc"] = False
         histories.append(h)
 
     with ThreadPoolExecutor(vlib.NCPU) as ex:
